@@ -366,10 +366,10 @@ pub fn run(args: &Args, seed: u64, tier: &str, report: &Report) -> String {
         report.merge_local(&mut l);
         return rule.into();
     }
-    let sizes_arg = args.str("--sizes", if thorough { "0,1,2,3,16,64,256" } else { "0,1,2,3,16,64" });
+    let sizes_arg = args.str("--sizes", "0,1,2,3,16,64");
     let sizes: Vec<usize> = sizes_arg.split(',').map(|s| s.parse().unwrap()).collect();
-    let histories = args.u64("--histories", if thorough { 40_000 } else { 1_600 });
-    let max_ops = args.u64("--max-ops", if thorough { 20_000 } else { 6_000 }) as usize;
+    let histories = args.u64("--histories", if thorough { 16_000 } else { 1_600 });
+    let max_ops = args.u64("--max-ops", if thorough { 12_000 } else { 6_000 }) as usize;
     let threads = args.u64("--threads", 16) as usize;
     let body = |shard: usize| {
         let mut l = Local::default();
